@@ -33,6 +33,22 @@ var idCols = map[string]string{
 	"agency.txt": "agency_id", "routes.txt": "route_id", "stops.txt": "stop_id", "trips.txt": "trip_id", "calendar.txt": "service_id", "shapes.txt": "shape_id",
 }
 
+// cell/setCell tolerate columns and cells that earlier faults removed.
+func cell(tb *Table, r int, col int) string {
+	if col < 0 || r < 0 || r >= len(tb.Rows) || col >= len(tb.Rows[r]) {
+		return ""
+	}
+	return tb.Rows[r][col]
+}
+
+func setCell(tb *Table, r int, col int, v string) bool {
+	if col < 0 || r < 0 || r >= len(tb.Rows) || col >= len(tb.Rows[r]) {
+		return false
+	}
+	tb.Rows[r][col] = v
+	return true
+}
+
 func pickTable(t *sim.T, f *Feed, names ...string) *Table {
 	var cands []*Table
 	for _, tb := range f.Tables {
@@ -72,7 +88,7 @@ func MutateStatic(t *sim.T, m *StaticModel, focus FaultFocus) string {
 		}
 		r, c := t.Choose(len(tb.Rows)), t.Choose(len(tb.Header))
 		if c < len(tb.Rows[r]) {
-			tb.Rows[r][c] = ""
+			setCell(tb, r, c, "")
 		}
 		return fmt.Sprintf("blank %s row %d col %s", tb.Name, r+1, tb.Header[c])
 	case 1: // junk in a cell
@@ -83,7 +99,7 @@ func MutateStatic(t *sim.T, m *StaticModel, focus FaultFocus) string {
 		r, c := t.Choose(len(tb.Rows)), t.Choose(len(tb.Header))
 		tok := junkTokens[t.Choose(len(junkTokens))]
 		if c < len(tb.Rows[r]) {
-			tb.Rows[r][c] = tok
+			setCell(tb, r, c, tok)
 		}
 		return fmt.Sprintf("junk %q in %s row %d col %s", sim.Clip(tok, 12), tb.Name, r+1, tb.Header[c])
 	case 2: // dangling reference
@@ -97,7 +113,7 @@ func MutateStatic(t *sim.T, m *StaticModel, focus FaultFocus) string {
 			return ""
 		}
 		r := t.Choose(len(tb.Rows))
-		tb.Rows[r][col] = fmt.Sprintf("dangling%d", t.Choose(3))
+		setCell(tb, r, col, fmt.Sprintf("dangling%d", t.Choose(3)))
 		return fmt.Sprintf("dangling reference in %s row %d col %s", tb.Name, r+1, tb.Header[col])
 	case 3: // duplicate a row (duplicate ids)
 		tb := pickTable(t, f)
@@ -121,7 +137,7 @@ func MutateStatic(t *sim.T, m *StaticModel, focus FaultFocus) string {
 			return ""
 		}
 		a, b := t.Choose(len(tb.Rows)), t.Choose(len(tb.Rows))
-		tb.Rows[a][col] = tb.Rows[b][col]
+		setCell(tb, a, col, cell(tb, b, col))
 		return fmt.Sprintf("%s row %d takes the id of row %d", tb.Name, a+1, b+1)
 	case 5: // self parent
 		tb := f.Table("stops.txt")
@@ -129,7 +145,7 @@ func MutateStatic(t *sim.T, m *StaticModel, focus FaultFocus) string {
 			return ""
 		}
 		r := t.Choose(len(tb.Rows))
-		tb.Rows[r][tb.Col("parent_station")] = tb.Rows[r][tb.Col("stop_id")]
+		setCell(tb, r, tb.Col("parent_station"), cell(tb, r, tb.Col("stop_id")))
 		return fmt.Sprintf("stop row %d is its own parent", r+1)
 	case 6: // k-cycle of parents
 		tb := f.Table("stops.txt")
@@ -145,7 +161,7 @@ func MutateStatic(t *sim.T, m *StaticModel, focus FaultFocus) string {
 			if i == k-1 {
 				b = start
 			}
-			tb.Rows[a][pc] = tb.Rows[b][ic]
+			setCell(tb, a, pc, cell(tb, b, ic))
 		}
 		return fmt.Sprintf("parent cycle of length %d starting at stop row %d", k, start+1)
 	case 7: // same-stop transfer
@@ -154,7 +170,7 @@ func MutateStatic(t *sim.T, m *StaticModel, focus FaultFocus) string {
 			return ""
 		}
 		r := t.Choose(len(tb.Rows))
-		tb.Rows[r][tb.Col("to_stop_id")] = tb.Rows[r][tb.Col("from_stop_id")]
+		setCell(tb, r, tb.Col("to_stop_id"), cell(tb, r, tb.Col("from_stop_id")))
 		return fmt.Sprintf("same-stop transfer row %d", r+1)
 	case 8: // drop a column
 		tb := pickTable(t, f)
@@ -270,7 +286,7 @@ func MutateStatic(t *sim.T, m *StaticModel, focus FaultFocus) string {
 			return ""
 		}
 		r := t.Choose(len(tb.Rows))
-		tb.Rows[r][col] = ""
+		setCell(tb, r, col, "")
 		return fmt.Sprintf("%s row %d: blank id", tb.Name, r+1)
 	case 17: // grow a table past several slice re-allocations (fresh ids, references kept)
 		tb := pickTable(t, f, "stops.txt", "routes.txt", "trips.txt", "agency.txt", "calendar.txt", "shapes.txt")
@@ -285,7 +301,9 @@ func MutateStatic(t *sim.T, m *StaticModel, focus FaultFocus) string {
 		base := len(tb.Rows)
 		for i := 0; i < n; i++ {
 			row := append([]string(nil), tb.Rows[t.Choose(base)]...)
-			row[col] = fmt.Sprintf("%s_g%d", row[col], i)
+			if col < len(row) {
+				row[col] = fmt.Sprintf("%s_g%d", row[col], i)
+			}
 			at := t.Choose(len(tb.Rows) + 1)
 			tb.Rows = append(tb.Rows, nil)
 			copy(tb.Rows[at+1:], tb.Rows[at:])
@@ -307,7 +325,7 @@ func MutateStatic(t *sim.T, m *StaticModel, focus FaultFocus) string {
 		}
 		r := t.Choose(len(tb.Rows))
 		o := t.Choose(len(tb.Rows))
-		tb.Rows[r][tb.Col("parent_station")] = tb.Rows[o][tb.Col("stop_id")]
+		setCell(tb, r, tb.Col("parent_station"), cell(tb, o, tb.Col("stop_id")))
 		return fmt.Sprintf("stop row %d re-parented to row %d", r+1, o+1)
 	case 20: // a reference column made blank
 		tb := pickTable(t, f, "routes.txt", "stops.txt", "transfers.txt", "trips.txt", "stop_times.txt", "frequencies.txt")
@@ -320,7 +338,7 @@ func MutateStatic(t *sim.T, m *StaticModel, focus FaultFocus) string {
 			return ""
 		}
 		r := t.Choose(len(tb.Rows))
-		tb.Rows[r][col] = ""
+		setCell(tb, r, col, "")
 		return fmt.Sprintf("blank reference in %s row %d col %s", tb.Name, r+1, tb.Header[col])
 	}
 	return ""
